@@ -309,7 +309,8 @@ def clause_bc(P, rep):
             all(r.delta is not None and sx.show(r.delta) == "segment*.address" and not (r.pushed and r.pushed[2]) for r in r2)
         rep.ob("C02.b|%s" % kind.lower(), ok, "%s items move neither counter and emit nothing" % kind if ok else "%s items change a counter or emit bytes" % kind)
     # labels take the running counter of pass 1
-    labs = [r for r in rows1 if r.item == "Label"]
+    # (a label that is refused - the name is in use - binds nothing; every label that is accepted is bound)
+    labs = [r for r in rows1 if r.item == "Label" and r.exit == "loop"]
     oklab = bool(labs)
     for r in labs:
         ins = [e for e in r.events if e[0] == 'call' and e[1].endswith("HashMap::<K, V, S, A>::insert")]
@@ -591,34 +592,52 @@ def clause_g_segments(P, rep):
         # the directive of the path: its type is what gets written / pushed
         d = L.dom1(p.state, "self*#d")
         eff = [(e[0], e[1], e[2]) for e in p.events if e[0] in ('store', 'push')]
-        empty = None
+        empty = addressed = same_type = None
         for e, t in p.conds:
-            if sx.show(e).endswith(".items#len == 0)"):
+            sh = sx.show(e)
+            if sh.endswith(".items#len == 0)"):
                 empty = t
-        per.setdefault(dv.get(d) if d is not None else None, []).append((p.exit, empty, eff))
+            if sh.endswith(".address != 0)"):
+                addressed = t
+            if sh.endswith(".address == 0)"):
+                addressed = not t
+            m = re.search(r"^\((?:[\w:<> ]*::)?(ne|eq)\(.*\.t, SegmentType::\w+\)(?:@\d+)? == 0\)$", sh)
+            if m:
+                # (ne(..) == 0) holds: equal types
+                same_type = t if m.group(1) == "ne" else (not t)
+        per.setdefault(dv.get(d) if d is not None else None, []).append((p.exit, empty, addressed, same_type, eff))
     # paths whose directive is not pinned by a condition belong to the `_ => Code` default of the inner match: attribute by effect
     for dname, tname in want_t.items():
         rows = per.get(dname, []) + [r for r in per.get(None, [])]
         okd = True
         why = ""
         seen_nonempty = seen_empty = False
-        for exit_, empty, eff in rows:
+        for exit_, empty, addressed, same_type, eff in rows:
             if exit_ != "Ok":
                 okd, why = False, "a segment directive can fail"
                 continue
             mine = [x for x in eff if ("SegmentType::%s" % tname) in str(x[2])]
             if not mine:
                 continue
+            fresh = len(eff) == 1 and eff[0][0] == 'push' and re.search(r"Segment::Segment\(vec, SegmentType::%s, 0\)" % tname, str(eff[0][2]))
+            retype = len(eff) == 1 and eff[0][0] == 'store' and eff[0][1].endswith(".%d" % ft) and str(eff[0][2]) == "SegmentType::%s" % tname
             if empty is False:
                 seen_nonempty = True
-                if not (len(eff) == 1 and eff[0][0] == 'push' and re.search(r"Segment::Segment\(vec, SegmentType::%s, 0\)" % tname, str(eff[0][2]))):
+                if not fresh:
                     okd, why = False, "with items in the current segment the directive does not open exactly one fresh %s segment (effects %s)" % (tname, [str(x[2])[:60] for x in eff])
             elif empty is True:
+                if fresh:
+                    continue         # the empty segment stays as it is, a fresh one without an address is opened: nothing is lost
+                if not retype:
+                    okd, why = False, ("on a still empty current segment the directive does more than set its type (%s)" % [("%s %s" % (x[0], str(x[1])[-24:])) for x in eff])
+                    continue
                 seen_empty = True
-                if not (len(eff) == 1 and eff[0][0] == 'store' and eff[0][1].endswith(".%d" % ft) and str(eff[0][2]) == "SegmentType::%s" % tname):
-                    okd, why = False, ("on a still empty current segment the directive does more than set its type (%s): a start address that `.org` has just stored there is lost" % [("%s %s" % (x[0], str(x[1])[-24:])) for x in eff])
+                # re-typing keeps the start address: fine when there is none, or when the memory stays the same
+                if not (addressed is False or same_type is True):
+                    okd, why = False, ("a still empty segment is re-typed although it may carry a start address that `.org` stored for another memory "
+                                       "(`.org 0x100` / `.dseg`: the data would start at the code origin)")
         if okd and not (seen_empty and seen_nonempty):
             okd, why = False, "the two cases (current segment empty / not empty) were not both found for .%s" % dname.lower()
         rep.ob("C02.g|segment-switch|%s" % dname.lower(), okd,
-               ".%s opens a fresh %s segment after items, and only re-types a still empty segment (its start address stays)" % (dname.lower(), tname.lower()) if okd else
+               ".%s opens a fresh %s segment after items and when the empty current one carries an address of another memory, and otherwise only re-types a still empty segment" % (dname.lower(), tname.lower()) if okd else
                ".%s: %s" % (dname.lower(), why))
